@@ -31,10 +31,13 @@ Fresh(run) == [c |-> run,
                since |-> [k \in 1..run.nkeys |-> 0],          \* from when on the key has to be advertised
                once |-> {},                                   \* keys with an outstanding provide-once
                stopped |-> [k \in 1..run.nkeys |-> -1],       \* when the key was stopped (-1: not stopped)
+               saved |-> [k \in 1..run.nkeys |-> [kept |-> FALSE, since |-> 0, last |-> -1]],  \* what a stop replaced
                last |-> [k \in 1..run.nkeys |-> -1],          \* instant of the last complete advertisement
                batchTs |-> -1, batch |-> [k \in 1..run.nkeys |-> {}], failed |-> {},
                routed |-> {}, nofresh |-> 0, gaveup |-> FALSE,   \* the closest-peers lookups of the current instant
-               online |-> TRUE, onlineSince |-> 0,
+               online |-> TRUE, onlineSince |-> 0, restartAt |-> -1,
+               disturbed |-> FALSE,     \* an outage or a restart has happened in this run
+               onceLast |-> [k \in 1..run.nkeys |-> -1],   \* when a provide-once was the latest call for the key (-1: it is not)
                viol |-> {}]
 Init == \E i \in ResetLines : l = i + 1 /\ s = Fresh(Trace[i])
 Step(ns) == /\ s' = ns /\ l' = l + 1
@@ -76,45 +79,60 @@ Route == /\ Is("Route")
             Step([st EXCEPT !.batchTs = Ev.ts, !.routed = @ \cup Range(Ev.peers), !.nofresh = nf, !.gaveup = @ \/ nf >= 2])
 SendFail == /\ Is("SendFail") /\ LET st == At(Ev.ts) IN Step([st EXCEPT !.batchTs = Ev.ts, !.failed = @ \cup {Ev.k}])
 
+\* Behind the buffered wrapper a start that follows a stop of the same key in the same batch cancels the stop
+\* (the key stays on its schedule, nothing is advertised for it now); otherwise a key that is not kept is new.
 Start == /\ Is("Start")
          /\ LET st == At(Ev.ts)
-                new == Range(Ev.keys) \ st.kept IN
+                undo == {k \in Range(Ev.keys) : st.c.buffered /\ st.stopped[k] = Ev.ts /\ st.saved[k].kept}
+                new == (Range(Ev.keys) \ st.kept) \ undo IN
             Step([st EXCEPT !.kept = @ \cup Range(Ev.keys),
-                            !.since = [k \in 1..st.c.nkeys |-> IF k \in new THEN Ev.ts ELSE @[k]],
-                            !.last = [k \in 1..st.c.nkeys |-> IF k \in new THEN -1 ELSE @[k]],
-                            !.stopped = [k \in 1..st.c.nkeys |-> IF k \in Range(Ev.keys) THEN -1 ELSE @[k]]])
+                            !.since = [k \in 1..st.c.nkeys |-> IF k \in new THEN Ev.ts ELSE IF k \in undo THEN st.saved[k].since ELSE @[k]],
+                            !.last = [k \in 1..st.c.nkeys |-> IF k \in new THEN -1 ELSE IF k \in undo THEN st.saved[k].last ELSE @[k]],
+                            !.onceLast = [k \in 1..st.c.nkeys |-> IF k \in Range(Ev.keys) THEN -1 ELSE @[k]],
+                           !.stopped = [k \in 1..st.c.nkeys |-> IF k \in Range(Ev.keys) THEN -1 ELSE @[k]]])
 \* a one-off advertisement is asked for explicitly, also for a key that was stopped before
 Once == /\ Is("Once")
         /\ LET st == At(Ev.ts) IN
            Step([st EXCEPT !.once = @ \cup Range(Ev.keys),
+                           !.onceLast = [k \in 1..st.c.nkeys |-> IF k \in Range(Ev.keys) THEN Ev.ts ELSE @[k]],
                            !.since = [k \in 1..st.c.nkeys |-> IF k \in Range(Ev.keys) \ st.kept THEN Ev.ts ELSE @[k]],
                            !.last = [k \in 1..st.c.nkeys |-> IF k \in Range(Ev.keys) \ st.kept THEN -1 ELSE @[k]],
                            !.stopped = [k \in 1..st.c.nkeys |-> IF k \in Range(Ev.keys) THEN -1 ELSE @[k]]])
 Stop == /\ Is("Stop")
         /\ LET st == At(Ev.ts) IN
            Step([st EXCEPT !.kept = @ \ Range(Ev.keys), !.once = @ \ Range(Ev.keys),
+                           !.onceLast = [k \in 1..st.c.nkeys |-> IF k \in Range(Ev.keys) THEN -1 ELSE @[k]],
+                           !.saved = [k \in 1..st.c.nkeys |-> IF k \in Range(Ev.keys) THEN [kept |-> k \in st.kept, since |-> st.since[k], last |-> st.last[k]] ELSE @[k]],
                            !.stopped = [k \in 1..st.c.nkeys |-> IF k \in Range(Ev.keys) THEN Ev.ts ELSE @[k]]])
 Swarm == /\ Is("Swarm") /\ LET st == Quiet IN Step([st EXCEPT !.nearest = Ev.nearest])
-Offline == /\ Is("Offline") /\ LET st == Quiet IN Step([st EXCEPT !.online = FALSE])
+Offline == /\ Is("Offline") /\ LET st == Quiet IN Step([st EXCEPT !.online = FALSE, !.disturbed = TRUE])
 Online == /\ Is("Online") /\ LET st == Quiet IN Step([st EXCEPT !.online = TRUE, !.onlineSince = Ev.ts])
-Restart == /\ Is("Restart") /\ LET st == Quiet IN Step([st EXCEPT !.onlineSince = IF st.online THEN Ev.ts ELSE @, !.once = {}])
+\* The property promises that work queued at Close is resumed after a restart; it does not promise reprovide
+\* deadlines across a restart, so the deadline clock of every key starts again at the restart.
+Restart == /\ Is("Restart") /\ LET st == Quiet IN Step([st EXCEPT !.onlineSince = IF st.online THEN Ev.ts ELSE @, !.once = {}, !.restartAt = Ev.ts, !.disturbed = TRUE])
 
-\* quiescent: what is due has been done
+\* Quiescent: what is due has been done.  The timing clauses are decided for steady runs only (the provider
+\* used directly, no outage and no restart so far): what exactly is owed after an outage, after a restart and
+\* through the buffered wrapper's batches could not be pinned down soundly and is left undecided (DESIGN.md).
 Settle ==
   /\ Is("Settle")
   /\ LET st == Quiet
-         ready == st.online /\ Ev.ts - st.onlineSince >= Grace
-         due(k) == Max(st.since[k], st.onlineSince) + Grace <= Ev.ts
+         steady == ~st.c.buffered /\ ~st.disturbed /\ st.online
+         due(k) == st.since[k] + Grace <= Ev.ts
          bound == st.c.interval + st.c.maxdelay + 60
+         gap(k) == Ev.ts - st.last[k]
      IN Step([st EXCEPT !.viol = @
           \* every key handed over has been advertised since
-          \cup Flag(ready => \A k \in st.kept \cup st.once : due(k) => st.last[k] >= st.since[k], "b_key_not_advertised")
-          \* and is re-advertised within interval + allowed delay
-          \cup Flag(ready => \A k \in st.kept : (due(k) /\ st.last[k] # -1) => Ev.ts - st.last[k] <= bound
-                                                  \/ Ev.ts - st.onlineSince < bound,
-                    "b_key_not_readvertised_in_time")
-          \cup Flag(ready => \A k \in st.kept : due(k) => (st.last[k] >= st.onlineSince \/ Ev.ts - st.last[k] <= bound),
-                    "b_missed_work_not_caught_up")])
+          \cup Flag(steady => \A k \in st.kept \cup st.once : due(k) => st.last[k] >= st.since[k], "b_key_not_advertised")
+          \* and is re-advertised within interval + allowed delay; when regions are merged into a wider prefix the
+          \* library reschedules them a cycle later (known finding), but never later than that
+          \cup Flag(steady => \A k \in st.kept : (due(k) /\ st.last[k] # -1) => gap(k) <= bound, "b_key_not_readvertised_in_time")
+          \cup Flag(steady => \A k \in st.kept : (due(k) /\ st.last[k] # -1) => gap(k) <= bound + st.c.interval,
+                    "b_key_not_readvertised_within_two_intervals")
+          \* behind the buffered wrapper: a provide-once that is the latest call for its key is carried out
+          \cup Flag((st.c.buffered /\ ~st.disturbed /\ st.online) =>
+                      \A k \in 1..st.c.nkeys : (st.onceLast[k] # -1 /\ st.onceLast[k] + Grace <= Ev.ts) => st.last[k] >= st.onceLast[k],
+                    "b_provide_once_behind_the_buffer_not_carried_out")])
 
 OpResult == Is("OpResult") /\ LET st == At(Ev.ts) IN Step(st)
 EndEv == Is("End") /\ Step(CloseBatch(s))
